@@ -493,6 +493,17 @@ type vf24Scenario struct {
 	FailPuts []int    `json:"failing_local_writes,omitempty"`
 	Outcome  string   `json:"outcome"`
 	EC       []string `json:"ec_rules,omitempty"`
+	History  []vf24Step `json:"offers_to_this_node_so_far,omitempty"` // history mode: all offers incl. the current (last) one
+}
+
+type vf24Step struct {
+	Path     string   `json:"path"`
+	Mutation string   `json:"mutation"`
+	Expected []string `json:"clauses_broken_by_input"`
+	Len      int      `json:"payload_len"`
+	Streamed int      `json:"payload_streamed"`
+	Chunks   []int    `json:"chunks,omitempty"`
+	Outcome  string   `json:"outcome"`
 }
 
 func TestVerif_C24(t *testing.T) {
@@ -500,7 +511,7 @@ func TestVerif_C24(t *testing.T) {
 	defer r.Finish()
 	nPrepared := r.Pick(3000, 200000)
 	nSlicer := r.Pick(1200, 60000)
-	r.SetRule(fmt.Sprintf("%d prepared-object cases: a valid object (regular, session-signed, tombstone, lock, v2 split first/middle/last/link with nested parent header, EC part) or a single-field mutant (ID bit, header field, checksum, declared size +-, payload byte, truncated/overlong stream, signature bytes/wrong key/missing, session token auth key/signature/issuer, attribute duplicate/empty/NUL, EC rule/part index, EC part length, EC part hash, parent header ID/signature/attributes) is offered through Streamer.Init/SendChunk/Close in a seeded chunking or through ValidateAndStoreObjectLocally (replication); %d slicer cases: unprepared objects (owner key or owner-issued session) of 0..4x the object size limit streamed in seeded chunkings with 0..2 transient local write failures; the oracle validates every object that reaches the recording local storage and, for successful slicer PUTs, reassembles the stored pieces; distinct = (path, object kind, mutation, outcome)", nPrepared, nSlicer))
+	r.SetRule(fmt.Sprintf("%d prepared-object cases: a valid object (regular, session-signed, tombstone, lock, v2 split first/middle/last/link with nested parent header, EC part) or a single-field mutant (ID bit, header field, checksum, declared size +-, payload byte, truncated/overlong stream, signature bytes/wrong key/missing, session token auth key/signature bytes/issuer/signed by a non-issuer with identical body/body changed under the old signature, attribute duplicate/empty/NUL, EC rule/part index, EC part length, EC part hash, parent header ID/signature/attributes) is offered through Streamer.Init/SendChunk/Close in a seeded chunking or through ValidateAndStoreObjectLocally (replication); half of the cases are histories: 2..5 offers (the valid object and independent single-field mutants of it, sharing owner, keys, session token body and parent headers) go to the same node in seeded order, every offer judged alone; %d slicer cases: unprepared objects (owner key or owner-issued session) of 0..4x the object size limit streamed in seeded chunkings with 0..2 transient local write failures; the oracle validates every object that reaches the recording local storage and, for successful slicer PUTs, reassembles the stored pieces; distinct = (path, object kind, mutation, outcome)", nPrepared, nSlicer))
 	r.Assume("Server.Replicate delegates object validation to putsvc.Service.ValidateAndStoreObjectLocally, which is what is driven here; request-level checks of Replicate (request signature, container membership) are outside C24")
 	r.Assume("only V1 session tokens are generated; split scheme v2 only (the node's slicer and the SDK produce v2)")
 	r.Assume("independent validator trusts the SDK's protobuf encoding and ECDSA verification primitives")
@@ -514,6 +525,9 @@ func TestVerif_C24(t *testing.T) {
 	}
 	if r.Counter("valid_objects_stored") == 0 || r.Counter("invalid_inputs_rejected") == 0 {
 		r.Inconclusive("did not observe both accepted valid objects and rejected invalid ones")
+	}
+	if r.Counter("history_invalid_sibling_offered_after_accepted_valid") == 0 || r.Counter("history_same_session_body_other_signature_after_accepted_valid") == 0 {
+		r.Inconclusive("no node was offered an invalid sibling of an object it had accepted before (history mode not exercised)")
 	}
 	if r.Counter("slicer_puts_reassembled") == 0 {
 		r.Inconclusive("no node-sliced upload was reassembled")
@@ -805,95 +819,160 @@ func vf24PreparedCase(r *verifkit.Run, cache *isessions.ObjectSessionsCache, idx
 		return
 	}
 
-	// ---- mutation ----
-	streamPayload := bytes.Clone(in.obj.Payload())
-	mut := "none"
-	if rng.IntN(4) != 0 {
-		mut = vf24Mutate(rng, &in, &streamPayload, ecRules, sessKey, ownerSigner, parentSigner, env.cnrID)
+	// ---- offers ----
+	// single mode: one offer (valid or single-field mutant) to a node that has never seen
+	// the object's principals.  history mode: 2..5 offers derived from the SAME valid
+	// object (same owner, keys, session token, parent header) to the SAME node, valid and
+	// mutated ones in seeded order, so that whatever the node remembers from an earlier
+	// validation (e.g. the shared session token cache) meets a sibling that differs in one
+	// field.  Every offer is judged alone: what it makes the node store must be valid.
+	base := in
+	nSteps := 1
+	history := rng.IntN(2) == 0
+	if history {
+		nSteps = 2 + rng.IntN(4)
+		r.Count("history_sequences", 1)
 	}
-	sc.Mutation = mut
-	// what the validator says about the object the node is offered (payload = what is streamed)
-	offered := in.obj
-	offered.SetPayload(streamPayload)
-	sc.Expected = vf24Check(&offered, ecRules)
-	sc.Len, sc.Streamed = int(in.obj.PayloadSize()), len(streamPayload)
+	validAccepted, mutantRejected := false, false
+	for step := 0; step < nSteps; step++ {
+		in := vf24CloneInput(base)
+		streamPayload := bytes.Clone(in.obj.Payload())
+		mut := "none"
+		mutate := rng.IntN(4) != 0
+		if history && step == 0 {
+			mutate = rng.IntN(4) == 0
+		}
+		if mutate {
+			mut = vf24Mutate(rng, &in, &streamPayload, ecRules, sessKey, ownerSigner, parentSigner, env.cnrID)
+		}
+		// what the validator says about the object the node is offered (payload = what is streamed)
+		offered := in.obj
+		offered.SetPayload(streamPayload)
+		st := vf24Step{Mutation: mut, Expected: vf24Check(&offered, ecRules), Len: int(in.obj.PayloadSize()), Streamed: len(streamPayload)}
 
-	// ---- path ----
-	sc.Path = "replica"
-	if rng.IntN(2) == 0 && (in.obj.Signature() != nil || strings.HasPrefix(sc.Gen, "ec-part")) {
-		sc.Path = "client-stream"
-	}
-	var err error
-	panicked := r.Guard(sc, func() {
-		if sc.Path == "replica" {
-			err = env.svc.ValidateAndStoreObjectLocally(context.Background(), offered)
-			return
+		st.Path = "replica"
+		if rng.IntN(2) == 0 && (in.obj.Signature() != nil || strings.HasPrefix(sc.Gen, "ec-part")) {
+			st.Path = "client-stream"
+			st.Chunks = vf24Chunks(rng, len(streamPayload))
 		}
-		sc.Chunks = vf24Chunks(rng, len(streamPayload))
-		stream, e := env.svc.Put(context.Background())
-		if e != nil {
-			err = e
-			return
-		}
-		hdr := *in.obj.CutPayload()
-		prm := new(PutInitPrm).WithObject(&hdr).WithCommonPrm(objutil.CommonPrmFromRequest(2, nil, common.RequestTokens{}))
-		if err = stream.Init(prm); err != nil {
-			return
-		}
-		off := 0
-		for _, c := range sc.Chunks {
-			if err = stream.SendChunk(new(PutChunkPrm).WithChunk(streamPayload[off : off+c])); err != nil {
+		env.w.mu.Lock()
+		nBefore := len(env.w.stored)
+		env.w.mu.Unlock()
+		sc.Mutation, sc.Expected, sc.Len, sc.Streamed, sc.Path, sc.Chunks = st.Mutation, st.Expected, st.Len, st.Streamed, st.Path, st.Chunks
+		var err error
+		panicked := r.Guard(sc, func() {
+			if st.Path == "replica" {
+				err = env.svc.ValidateAndStoreObjectLocally(context.Background(), offered)
 				return
 			}
-			off += c
+			stream, e := env.svc.Put(context.Background())
+			if e != nil {
+				err = e
+				return
+			}
+			hdr := *in.obj.CutPayload()
+			prm := new(PutInitPrm).WithObject(&hdr).WithCommonPrm(objutil.CommonPrmFromRequest(2, nil, common.RequestTokens{}))
+			if err = stream.Init(prm); err != nil {
+				return
+			}
+			off := 0
+			for _, c := range st.Chunks {
+				if err = stream.SendChunk(new(PutChunkPrm).WithChunk(streamPayload[off : off+c])); err != nil {
+					return
+				}
+				off += c
+			}
+			_, err = stream.Close()
+		})
+		r.Eval(1)
+		if panicked {
+			return
 		}
-		_, err = stream.Close()
-	})
-	r.Eval(1)
-	if panicked {
-		return
-	}
-	env.w.mu.Lock()
-	stored := append([]vf24Stored(nil), env.w.stored...)
-	binBad := env.w.binBad
-	env.w.mu.Unlock()
+		env.w.mu.Lock()
+		stored := append([]vf24Stored(nil), env.w.stored[nBefore:]...)
+		binBad := env.w.binBad
+		env.w.binBad = ""
+		env.w.mu.Unlock()
 
-	sc.Outcome = "rejected"
-	if err == nil {
-		sc.Outcome = "accepted"
-	}
-	if len(stored) > 0 {
-		sc.Outcome += "+stored"
-	}
-	if os.Getenv("VERIF_DEBUG") != "" && err != nil && len(sc.Expected) == 0 {
-		fmt.Printf("DEBUG valid input rejected: %+v: %v\n", sc, err)
-	}
-	if binBad != "" {
-		r.Violation("storage-binary|"+sc.Path, "binary handed to local storage: "+binBad, sc)
-	}
-	for _, s := range stored {
-		if bad := vf24Check(&s.obj, ecRules); len(bad) > 0 {
-			r.Violation(fmt.Sprintf("stored-invalid|%s|%s|%s|%s", sc.Path, sc.Gen, mut, bad[0]), fmt.Sprintf("node stored object %s that breaks: %v (input broke: %v; result of the operation: %v)", s.obj.GetID(), bad, sc.Expected, err), sc)
+		st.Outcome = "rejected"
+		if err == nil {
+			st.Outcome = "accepted"
+		}
+		if len(stored) > 0 {
+			st.Outcome += "+stored"
+		}
+		sc.Outcome = st.Outcome
+		if history {
+			sc.History = append(sc.History, st)
+		}
+		// history shape of this offer: what the node has already seen of this object's family
+		after := ""
+		if validAccepted {
+			after = "|after-valid-sibling-accepted"
+		} else if mutantRejected && mut == "none" {
+			after = "|after-mutant-sibling-rejected"
+		}
+		if os.Getenv("VERIF_DEBUG") != "" && err != nil && len(st.Expected) == 0 {
+			fmt.Printf("DEBUG valid input rejected: %+v: %v\n", sc, err)
+		}
+		if binBad != "" {
+			r.Violation("storage-binary|"+st.Path, "binary handed to local storage: "+binBad, sc)
+		}
+		for _, s := range stored {
+			if bad := vf24Check(&s.obj, ecRules); len(bad) > 0 {
+				r.Violation(fmt.Sprintf("stored-invalid|%s|%s|%s|%s%s", st.Path, sc.Gen, mut, bad[0], after), fmt.Sprintf("node stored object %s that breaks: %v (input broke: %v; result of the operation: %v; offer #%d of %d to this node)", s.obj.GetID(), bad, st.Expected, err, step+1, nSteps), sc)
+			}
+		}
+		switch {
+		case len(st.Expected) == 0 && len(stored) > 0:
+			r.Count("valid_objects_stored", 1)
+		case len(st.Expected) == 0:
+			r.Count("valid_inputs_rejected", 1)
+			r.Seen("valid_input_rejections", st.Path+"|"+sc.Gen+"|"+mut+after)
+		case len(stored) == 0:
+			r.Count("invalid_inputs_rejected", 1)
+		}
+		if len(st.Expected) > 0 {
+			r.Seen("clauses_broken_by_inputs", st.Expected[0])
+			if validAccepted {
+				r.Count("history_invalid_sibling_offered_after_accepted_valid", 1)
+				r.Seen("history_mutations_after_accepted_valid", mut)
+				if vf24SameTokenBody(&base.obj, &offered) {
+					r.Count("history_same_session_body_other_signature_after_accepted_valid", 1)
+				}
+			}
+		} else if mutantRejected {
+			r.Count("history_valid_offered_after_rejected_mutant_sibling", 1)
+		}
+		r.Count("path_"+st.Path, 1)
+		r.Distinct(fmt.Sprintf("%s|%s|%s|%s%s", st.Path, sc.Gen, mut, st.Outcome, after))
+		r.Seen("mutations", mut)
+		if len(st.Expected) == 0 && len(stored) > 0 {
+			validAccepted = true
+		}
+		if len(st.Expected) > 0 && len(stored) == 0 {
+			mutantRejected = true
 		}
 	}
-	switch {
-	case len(sc.Expected) == 0 && len(stored) > 0:
-		r.Count("valid_objects_stored", 1)
-	case len(sc.Expected) == 0:
-		r.Count("valid_inputs_rejected", 1)
-		r.Seen("valid_input_rejections", sc.Path+"|"+sc.Gen+"|"+mut)
-	case len(stored) == 0:
-		r.Count("invalid_inputs_rejected", 1)
-	}
-	if len(sc.Expected) > 0 {
-		r.Seen("clauses_broken_by_inputs", sc.Expected[0])
-	}
-	r.Count("path_"+sc.Path, 1)
-	r.Distinct(fmt.Sprintf("%s|%s|%s|%s", sc.Path, sc.Gen, mut, sc.Outcome))
-	r.Seen("mutations", mut)
 	if idx%397 == 0 {
 		r.Sample(sc)
 	}
+}
+
+// vf24SameTokenBody: b carries a V1 session token whose signed body is byte-identical to
+// the one of a but whose signature differs.
+func vf24SameTokenBody(a, b *object.Object) bool {
+	ta, tb := a.SessionToken(), b.SessionToken()
+	if ta == nil || tb == nil {
+		return false
+	}
+	return bytes.Equal(ta.SignedData(), tb.SignedData()) && !bytes.Equal(ta.Marshal(), tb.Marshal())
+}
+
+func vf24CloneInput(in vf24Input) vf24Input {
+	cp := vf24Input{signer: in.signer, gen: in.gen}
+	in.obj.CopyTo(&cp.obj)
+	return cp
 }
 
 // vf24Mutate changes one field so that (normally) exactly one clause of the statement
@@ -915,7 +994,8 @@ func vf24Mutate(rng *rand.Rand, in *vf24Input, stream *[]byte, ecRules []iec.Rul
 		muts = append(muts, "sig-bytes", "sig-wrong-key", "sig-none")
 	}
 	if sessKey != nil {
-		muts = append(muts, "session-authkey", "session-signature", "session-issuer", "session-authkey", "session-issuer")
+		muts = append(muts, "session-authkey", "session-signature", "session-issuer", "session-authkey", "session-issuer",
+			"session-signed-by-stranger", "session-signed-by-subject", "session-body-resigned-by-nobody", "session-signature")
 	}
 	if in.gen == "ec-part-last" {
 		muts = append(muts, "grandparent-id", "grandparent-signature", "grandparent-id", "grandparent-signature")
@@ -988,6 +1068,29 @@ func vf24Mutate(rng *rand.Rand, in *vf24Input, stream *[]byte, ecRules []iec.Rul
 	case "session-authkey":
 		// token is for another key than the one that signs the object
 		tok := vf24SessionToken(rng, cnr, ownerSigner, vf24Key(rng))
+		if rng.IntN(2) == 0 {
+			// the owner's other session: everything but the subject equals the original token (same token ID)
+			tok = *o.SessionToken()
+			other := vf24Key(rng)
+			tok.SetAuthKey((*neofsecdsa.PublicKey)(&other.PrivateKey.PublicKey))
+			_ = tok.Sign(ownerSigner)
+		}
+		o.SetSessionToken(&tok)
+		reseal()
+	case "session-signed-by-stranger", "session-signed-by-subject":
+		// token body stays byte-identical (issuer = owner), but it is not the issuer who signed it
+		tok := *o.SessionToken()
+		k := sessKey
+		if m == "session-signed-by-stranger" {
+			k = vf24Key(rng)
+		}
+		_ = tok.SetSignature(vf24Signer(rng, k))
+		o.SetSessionToken(&tok)
+		reseal()
+	case "session-body-resigned-by-nobody":
+		// token body changed after the owner signed it (longer lifetime), signature kept
+		tok := *o.SessionToken()
+		tok.SetExp(vf24Epoch + 1000 + uint64(rng.IntN(1000)))
 		o.SetSessionToken(&tok)
 		reseal()
 	case "session-signature":
@@ -1003,6 +1106,11 @@ func vf24Mutate(rng *rand.Rand, in *vf24Input, stream *[]byte, ecRules []iec.Rul
 	case "session-issuer":
 		// a stranger issues a session for the session key; the object still names the owner
 		tok := vf24SessionToken(rng, cnr, vf24Signer(rng, vf24Key(rng)), sessKey)
+		if rng.IntN(2) == 0 {
+			// ... reusing every other field of the owner's token (same token ID, lifetime, subject)
+			tok = *o.SessionToken()
+			_ = tok.Sign(vf24Signer(rng, vf24Key(rng)))
+		}
 		o.SetSessionToken(&tok)
 		reseal()
 	case "ec-rule-idx":
